@@ -342,6 +342,9 @@ class Gen:
                 comps.append('..')
             elif y < 0.15:
                 comps.append('.')
+            elif y < 0.22:
+                pool = r.choice(UNI_POOLS[1:5])
+                comps.append(''.join(r.choice(pool) for _ in range(r.choice([1, 3, 10, 40]))))
             elif y < 0.3:
                 comps.append(''.join(r.choice('abcdefghij') for _ in range(r.choice([100, 200, 248, 249, 250, 251, 255, 256, 260]))))
             else:
